@@ -33,8 +33,8 @@ var pathKinds = map[string][]string{
 	"httpz":     append(append(append([]string{}, genericKinds...), zKinds...), "abort", "znox"),
 	"batch":     append(append([]string{}, genericKinds...), "unsupported", "multi"),
 	"batchz":    append(append([]string{}, genericKinds...), zKinds...),
-	"bs":        append(append([]string{}, genericKinds...), "abort", "offset", "rename", "nofinish", "finearly", "dupcorrupt"),
-	"bsz":       append(append(append([]string{}, genericKinds...), zKinds...), "abort", "offset", "rename", "unsupported", "dupcorrupt"),
+	"bs":        append(append([]string{}, genericKinds...), "abort", "offset", "rename", "nofinish", "finearly", "dupcorrupt", "dupsize+1", "dupsize-1", "dupsizex2"),
+	"bsz":       append(append(append([]string{}, genericKinds...), zKinds...), "abort", "offset", "rename", "unsupported", "dupcorrupt", "dupsize+1", "dupsize-1", "dupsizex2"),
 	"splice":    {"none", "none", "missingchunk", "swapped", "size+1", "size-1", "wronghash", "otherhash", "chunksize+1", "emptychunk", "overflow", "digestfn", "nochunks", "dup", "badchunkhash", "one"},
 	"splicenod": {"none", "none", "missingchunk", "swapped", "chunksize+1", "emptychunk", "overflow", "digestfn", "nochunks", "dup", "one"},
 	"ac":        {"none", "none", "nodigest", "flip", "truncate", "extend", "size+1", "size-1", "wronghash", "otherhash", "emptyclaim", "file", "file-flip", "file-size+1", "stderr-flip", "two-bad-second"},
@@ -134,7 +134,9 @@ func runC01(e *env, n int) {
 	// regression cases of two repaired defects, in EVERY run: a batch entry with an unsupported
 	// compressor, data under the empty digest through ByteStream.Write (both forms), and the
 	// genuinely empty uploads that must stay accepted
-	fixed := []struct{ path, kind string }{{"batch", "unsupported"}, {"bs", "emptyclaim"}, {"bsz", "emptyclaim"}, {"bs", "empty"}, {"bsz", "empty"}}
+	ds := []string{"dupsize+1", "dupsize-1", "dupsizex2"}
+	fixed := []struct{ path, kind string }{{"batch", "unsupported"}, {"bs", "emptyclaim"}, {"bsz", "emptyclaim"}, {"bs", "empty"}, {"bsz", "empty"},
+		{"bs", ds[r.Intn(3)]}, {"bsz", ds[r.Intn(3)]}}
 	f0 := e.fx[r.Intn(len(e.fx))]
 	for i := 0; i < len(fixed) && i < n; i++ {
 		sz := pickSize(r)
@@ -450,8 +452,17 @@ func runBatch(f *fixture, r *Rng, z bool, kind string, sz int) *ucase {
 // ---- 5/6 ByteStream.Write
 
 func runBS(f *fixture, r *Rng, z bool, kind string, sz int) *ucase {
+	dupsize := strings.HasPrefix(kind, "dupsize")
+	if dupsize && sz < 2 {
+		sz = 2 + r.Intn(40)
+	}
 	b := freshBlob(r, sz, r.Chance(30))
 	gk := kind
+	if dupsize {
+		// the blob IS present, but under its own size: a Write that declares the same hash with
+		// another size claims a digest that is NOT present and must not be acknowledged
+		gk = "size" + strings.TrimPrefix(kind, "dupsize")
+	}
 	if sz == 0 && (kind == "flip" || kind == "truncate" || kind == "size-1") {
 		gk = "none"
 	}
@@ -465,11 +476,11 @@ func runBS(f *fixture, r *Rng, z bool, kind string, sz int) *ucase {
 		}
 		wire = zwire(r, m.payload, zk)
 	}
-	if kind == "dup" || kind == "dupcorrupt" {
+	if kind == "dup" || kind == "dupcorrupt" || dupsize {
 		if st, _ := f.bsWrite([]wmsg{{bsWriteName(false, "", b.hash, int64(sz)), 0, b.data, true}}, -1); st != cOK {
 			panic("dup: first upload failed: " + string(st))
 		}
-		u.preDup = true
+		u.preDup = !dupsize
 		bd0, _ := describe(b.data, false, b.hash, false)
 		u.ops = []string{fmt.Sprintf("FBsWrite (WN false %s %s) [mkWMsg true 0 %s true] false %s %s", CS(b.hash), CZ(int64(sz)), CZ(int64(sz)), bd0.coq(), CS(nextRnd()))}
 		u.obs = []string{"OSt SOk"}
@@ -546,7 +557,7 @@ func runBS(f *fixture, r *Rng, z bool, kind string, sz int) *ucase {
 	u.info = kind == "zemptyframe" || kind == "zskippable"
 	u.mustAccept = !u.info && kind != "finearly"
 	u.mention = []dg{u.decl}
-	if b.hash != u.decl.hash && sz > 0 {
+	if (b.hash != u.decl.hash || dupsize) && sz > 0 {
 		u.mention = append(u.mention, dg{b.hash, int64(sz)})
 	}
 	nmTerm := fmt.Sprintf("WN %s %s %s", CB(z), CS(m.decl.hash), CZ(m.decl.size))
